@@ -46,6 +46,38 @@ pub static P1_DEF: Def = Def {
 corpus_impl!(P1, str, P1_DEF, |t| match t { P1::NumX => 1, P1::AltD => 2, P1::YDigDig => 3, P1::CiZ => 4, P1::WEuroW => 5, P1::Alt => 6 }, |_e| 0, |_x| (0, true, 0, 0));
 corpus_impl!(P1T, str, P1_DEF, |t| match t { P1T::NumX => 1, P1T::AltD => 2, P1T::YDigDig => 3, P1T::CiZ => 4, P1T::WEuroW => 5, P1T::Alt => 6 }, |_e| 0, |_x| (0, true, 0, 0));
 
+// subpatterns whose source starts with `(` and ends with `)` but is NOT one group: the reference must still behave as one group
+// (an alternation must not leak, a quantifier after the reference must bind to all of it), also through a nested reference
+#[derive(Logos, Debug, PartialEq, Clone, Copy)]
+#[logos(utf8 = false)]
+#[logos(subpattern grp = r"(g)|(hi)")]
+#[logos(subpattern pair = r"(m)(n)")]
+#[logos(subpattern sign = r"(?:\+)|(?:-)")]
+#[logos(subpattern exp = r"e(?&sign)?7")]
+pub enum P3 {
+    #[regex("(?&grp)k")] GrpK,
+    #[regex("(?&pair)+")] Pairs,
+    #[regex("(?&sign)?5(?&exp)")] Num,
+}
+#[derive(Logos, Debug, PartialEq, Clone, Copy)]
+#[logos(utf8 = false)]
+pub enum P3T {
+    #[regex("(?u:(g)|(hi))k")] GrpK,
+    #[regex("(?u:(m)(n))+")] Pairs,
+    #[regex(r"(?u:(?:\+)|(?:-))?5(?u:e(?u:(?:\+)|(?:-))?7)")] Num,
+}
+const SIGN: P = P::Alt(&[P::Lit(b"+"), P::Lit(b"-")]);
+pub static P3_DEF: Def = Def {
+    name: "P3", utf8: false, decide: no_callbacks, log_callbacks: false, default_err: plain_default,
+    pats: &[
+        Pat { p: P::Cat(&[P::Alt(&[P::Lit(b"g"), P::Lit(b"hi")]), P::Lit(b"k")]), prio: 4, act: Act::Tok(1) },
+        Pat { p: P::Plus(&P::Lit(b"mn")), prio: 4, act: Act::Tok(2) },
+        Pat { p: P::Cat(&[P::Opt(&SIGN), P::Lit(b"5e"), P::Opt(&SIGN), P::Lit(b"7")]), prio: 6, act: Act::Tok(3) },
+    ],
+};
+corpus_impl!(P3, bytes, P3_DEF, |t| match t { P3::GrpK => 1, P3::Pairs => 2, P3::Num => 3 }, |_e| 0, |_x| (0, true, 0, 0));
+corpus_impl!(P3T, bytes, P3_DEF, |t| match t { P3T::GrpK => 1, P3T::Pairs => 2, P3T::Num => 3 }, |_e| 0, |_x| (0, true, 0, 0));
+
 // byte-string subpattern, byte mode: the reference is spliced with the subpattern's own (non-Unicode) mode
 #[derive(Logos, Debug, PartialEq, Clone, Copy)]
 #[logos(utf8 = false)]
@@ -166,6 +198,40 @@ fn o1_decide(_k: u8, _inp: &[u8], _s: usize, _e: usize) -> Decision { Decision::
 macro_rules! o1_impl { ($t:ident) => { corpus_impl!($t, bytes, O1_DEF, |t| match t { $t::Abc => 1, $t::Ab => 2, $t::DotStar => 3, $t::UpperA => 4 }, |_e| 0, |_x| (0, true, 0, 0)); } }
 o1_impl!(O1); o1_impl!(O1A); o1_impl!(O1B);
 pub fn o1_skip_byte(b: u8) -> bool { b == b's' || b == b'S' }
+
+/// named *closure* callbacks followed by further named arguments (O1 uses function paths only); canonical order: callback last
+#[derive(Logos, Debug, PartialEq, Clone, Copy)]
+#[logos(utf8 = false)]
+#[logos(skip("#[x-z]*", priority = 20, callback = |_lex| { }))]
+pub enum O4 {
+    #[regex("[a-c]+", priority = 10, callback = |_lex| { true })] Word,
+    #[token("abc")] Abc,
+    #[token("sel", ignore(case), callback = |_lex| { true })] Sel,
+    #[token("#xy")] HashXy,
+}
+/// the closure callback first, the other named arguments after it
+#[derive(Logos, Debug, PartialEq, Clone, Copy)]
+#[logos(utf8 = false)]
+#[logos(skip("#[x-z]*", callback = |_lex| { }, priority = 20))]
+pub enum O4A {
+    #[regex("[a-c]+", callback = |_lex| { true }, priority = 10)] Word,
+    #[token("abc")] Abc,
+    #[token("sel", callback = |_lex| { true }, ignore(case))] Sel,
+    #[token("#xy")] HashXy,
+}
+pub static O4_DEF: Def = Def {
+    name: "O4", utf8: false, decide: o1_decide, log_callbacks: false, default_err: plain_default,
+    pats: &[
+        Pat { p: P::Cat(&[P::Lit(b"#"), P::Star(&P::Class(&[(b'x', b'z')]))]), prio: 20, act: Act::Skip },
+        Pat { p: P::Plus(&P::Class(&[(b'a', b'c')])), prio: 10, act: Act::Tok(1) },
+        Pat { p: P::Lit(b"abc"), prio: 6, act: Act::Tok(2) },
+        Pat { p: P::Cat(&[P::Class(&[(b's', b's'), (b'S', b'S')]), P::Class(&[(b'e', b'e'), (b'E', b'E')]), P::Class(&[(b'l', b'l'), (b'L', b'L')])]), prio: 6, act: Act::Tok(3) },
+        Pat { p: P::Lit(b"#xy"), prio: 6, act: Act::Tok(4) },
+    ],
+};
+macro_rules! o4_impl { ($t:ident) => { corpus_impl!($t, bytes, O4_DEF, |t| match t { $t::Word => 1, $t::Abc => 2, $t::Sel => 3, $t::HashXy => 4 }, |_e| 0, |_x| (0, true, 0, 0)); } }
+o4_impl!(O4); o4_impl!(O4A);
+pub fn o4_skip_byte(b: u8) -> bool { b == b'#' || (b'x'..=b'z').contains(&b) }
 
 /// one combined #[logos(...)] attribute, items in two different orders (the subpattern stays before its use)
 #[derive(Debug, Clone, PartialEq, Default)]
